@@ -41,6 +41,10 @@ CHECKS = {
             "exploration: status-code and routing-grid sub-spaces exhaustive, request shapes (1..5 Via values, parameters, display names, IPv4/IPv6/host names, datagram and inbound/outbound connections) sampled",
             "trusts ref_route, WireMsg, mock transports; shapes of the two open findings are excluded by construction and counted",
             "DESIGN.md 3/C09", "E-world"),
+    'C13': ("exhaustive enumeration of all response histories up to length 4 (thorough 5) over a reduced alphabet + proptest over richer histories, driving the real Initiator/Early under a paused tokio clock; oracle = reference classifier over the set of To-tags seen so far, recipients identified by unique X-Seq markers",
+            "exploration: every history of <=4 responses over {100,180,200,486} x {no tag,t0,t1} (11 110 cases); random histories of 1..10 responses with 3 tags, optional Contact/Record-Route/Supported/RSeq/Session-Expires; decides recipient and variant per response, exactly-once delivery, session contents from that 2xx, termination of early dialogs, completion 64*T1 after the first 2xx",
+            "trusts tokio's paused clock, hook H2, the mock transport; the application model polls every Early and drops it once it yields a session or Terminated",
+            "DESIGN.md 3/C13", "E-world"),
     'C14': ("exhaustive enumeration of the endpoint configuration space (29 952 configurations) + proptest over request sequences against one endpoint; oracle = independent eligibility decision table (ref_select)",
             "exploration, exhaustive over the finite configuration product (datagram subsets x factory configs incl. registration order and connect failure x pre-existing connections x sip/sips x IPv4/IPv6 literal x port x pinning); sequences sampled so that earlier requests create the pre-existing connections",
             "trusts the mock transports/factories, ref_select, tokio paused clock; HashMap order handled by membership in the admissible set",
